@@ -64,9 +64,6 @@ class Reflector(Substrate):
         if self.backscatter_coefficient is not None:
             raise NotImplementedError("backscatter_coefficient to be implemented")
 
-        if self.specular_reflection is None and self.backscatter_coefficient is None:
-            self.specular_reflection = 1
-
         spec_refl_coeff = smrt_matrix.zeros((npol, len(mu1)))
 
         spec_refl_coeff[0] = self._get_refl(frequency, 'V', mu1)
@@ -75,9 +72,6 @@ class Reflector(Substrate):
         return spec_refl_coeff
 
     def emissivity_matrix(self, frequency, eps_1, mu1, npol):
-
-        if self.specular_reflection is None and self.backscatter_coefficient is None:
-            self.specular_reflection = 1
 
         if npol > 2:
             raise NotImplementedError("active model is not yet implemented, need modification for the third component")
@@ -92,6 +86,9 @@ class Reflector(Substrate):
     def _get_refl(self, frequency, polarization, mu1):
 
         specular_reflection = self.specular_reflection
+
+        if specular_reflection is None and self.backscatter_coefficient is None:
+            specular_reflection = 1  # default: perfect reflector
 
         # try to get the frequency and/or the polarization if it is a dict
         if isinstance(specular_reflection, dict):
